@@ -93,6 +93,9 @@ def compare_pair(ctx, base, n, big, small):
 def rate_table(ctx, pg, model, probe=True):
     m = conv.make_model(pg, model)
     lam = {}
+    # the range of sample sizes asked differs from model to model (deterministically): a worker process evaluates many models
+    # one after the other, and rates must not depend on what an EARLIER model object was asked
+    B_MAX = 10 - int(round(sum(float(x) for x in model[1:] if isinstance(x, (int, float)) and not isinstance(x, bool)) * 64)) % 5
     with U.Guard() as g:
         for b in range(2, B_MAX + 2):
             for k in range(2, b + 1):
